@@ -9,7 +9,8 @@
    `proposition` (the object last pushed, mutated in place)  the top of the stack (it is on top whenever it is mutated)
    token in hedge factory / factory.construct(token)    hedge_of_name (the translated enumeration, keyed by hedge_name)
    raise SyntaxError                                    Err ESyntax
-   rule.py:388  `stack & (s_hedge | s_term)`  deque & int    Err EInternal  (TypeError; reached iff the final state is hedge|term) *)
+   final-state check (rule.py:384-389, after the repair of F6: `state & (s_hedge | s_term)`)   Err ESyntax when the text stops
+                                                        after the variable, after `is` or after a hedge *)
 From Coq Require Import ZArith NArith Bool List String.
 From VF Require Import Num GenNorm GenHedge GenTerm GenOpTable Core ShuntingYard.
 Import ListNotations.
@@ -130,7 +131,7 @@ Section Antecedent.
     | Err x => Err x
     | Ok (state, stack) =>
         if negb (has state (N.lor s_variable s_and_or)) && has state s_is then Err ESyntax
-        else if negb (has state (N.lor s_variable s_and_or)) then Err EInternal   (* rule.py:388 deque & int *)
+        else if negb (has state (N.lor s_variable s_and_or)) && has state (N.lor s_hedge s_term) then Err ESyntax   (* rule.py:388 *)
         else match stack with
              | [x] => Ok x
              | _ => Err ESyntax                               (* len(stack) != 1 *)
